@@ -46,6 +46,8 @@ def tasks(tier, seed):
     for N in ((2, 3, 4, 5, 8) if tier == 'quick' else (2, 3, 4, 5, 6, 7, 8, 12, 16)):
         T.append(('transform', N))
     T.append(('edge',))
+    for N0, seq in ((6, ((4, True), (6, True), (8, True), (5, True), (4, True), (3, False), (7, False), (3, False))), (3, ((5, False), (2, True), (5, True), (2, False)))):
+        T.append(('sizes', N0, seq))
     T.append(('kron',))
     T.append(('bcnd',))
     return T
@@ -62,6 +64,8 @@ def run_task(rep, task):
         transform_case(rep, task[1])
     elif task[0] == 'edge':
         edge_case(rep)
+    elif task[0] == 'sizes':
+        sizes_case(rep, task[1], task[2])
     elif task[0] == 'kron':
         kron_case(rep)
     elif task[0] == 'bcnd':
@@ -361,6 +365,53 @@ def edge_case(rep):
             rep.side(f'edge/{nm}/N1', ok)
         except Exception as e:
             rep.violation(f'{PID}/N1/{nm}', f'{cls.__name__}(1): operator construction raises {type(e).__name__}: {e}', {'task': 'edge', 'helper': cls.__name__, 'exception': str(e)})
+
+
+def sizes_case(rep, N0, seq):
+    """conversion matrices and the DCT normalisation requested with an explicit size on ONE long-lived helper, several sizes one after the other
+    (positional and keyword): every answer is decided against exact calculus for the size that was asked for, whatever was asked before"""
+    for cls, nm in ((ChebychevHelper, 'cheb'), (UltrasphericalHelper, 'ultra')):
+        H = cls(N0)
+        for i, (n, kw) in enumerate(seq):
+            name = f'sizes/{nm}/N{N0}/call{i}/size{n}/' + ('kw' if kw else 'pos')
+            c = [z3.Real(f'c{k}') for k in range(n)]
+            Tb, Ub = cheb_T(n), cheb_U(n)
+            get = (lambda code: H.get_conv(code, N=n)) if kw else (lambda code: H.get_conv(code, n))
+            try:
+                T2U = np.asarray(get('T2U').todense())
+                U2T = np.asarray(get('U2T').todense())
+                D2T = np.asarray(get('D2T').todense())
+                T2D = np.asarray(get('T2D').todense())
+                norm = np.asarray(H.get_norm(N=n) if kw else H.get_norm(n), dtype=float)
+            except Exception as e:
+                rep.replayed += 1
+                rep.violation(f'{PID}/explicit-size/raises', f'{name}: {type(e).__name__}: {e}', {'task': ['sizes', N0, [list(x) for x in seq]], 'call': i})
+                return
+            shapes = [T2U.shape, U2T.shape, D2T.shape, T2D.shape, norm.shape]
+            if shapes != [(n, n)] * 4 + [(n,)]:
+                rep.replayed += 1
+                rep.violation(f'{PID}/explicit-size/shape', f'{name}: conversion matrices / normalisation of size {n} requested, shapes delivered: {shapes} (requests before: {[x[0] for x in seq[:i]]})',
+                              {'task': ['sizes', N0, [list(x) for x in seq]], 'call': i, 'shapes': [list(x) for x in shapes]})
+                return
+            tol = rv(Fraction(1, 10**10) * basis_scale(Ub, n))
+            decide(rep, f'{name}/T2U', close(to_mono(Ub, matvec(T2U, c)), to_mono(Tb, c), tol), c, 'explicit-size/T2U',
+                   lambda cv, T2U=T2U, Ub=Ub, n=n: float(np.abs(T2U @ cv - np.linalg.solve(np.array([[float(x) for x in (Ub[k] + [0] * n)[:n]] for k in range(n)]).T, c2p(cv, n))).max()))
+            decide(rep, f'{name}/U2T-inverts-T2U', close(matvec(U2T, matvec(T2U, c)), c, rv(Fraction(1, 10**10) * n)), c, 'explicit-size/conversion-inverse',
+                   lambda cv, T2U=T2U, U2T=U2T: float(np.abs(U2T @ (T2U @ cv) - cv).max()))
+            # Dirichlet recombination D_k = T_k - T_{k-2} (k >= 2), D_0 = T_0, D_1 = T_1
+            Db = [Tb[k] if k < 2 else padd(Tb[k], pscale(Tb[k - 2], -1)) for k in range(n)]
+            decide(rep, f'{name}/D2T', close(to_mono(Tb, matvec(D2T, c)), to_mono(Db, c), tol), c, 'explicit-size/D2T',
+                   lambda cv, D2T=D2T, n=n: float(np.abs(D2T @ cv - np.array([cv[k] - (cv[k + 2] if k + 2 < n else 0.0) for k in range(n)])).max()))
+            decide(rep, f'{name}/T2D-inverts-D2T', close(matvec(T2D, matvec(D2T, c)), c, rv(Fraction(1, 10**10) * n * n)), c, 'explicit-size/conversion-inverse',
+                   lambda cv, D2T=D2T, T2D=T2D: float(np.abs(T2D @ (D2T @ cv) - cv).max()))
+            exn = np.ones(n) / n
+            exn[0] /= 2
+            rep.translator += 1
+            if not np.allclose(norm, exn, rtol=1e-14, atol=0):
+                rep.replayed += 1
+                rep.violation(f'{PID}/explicit-size/norm', f'{name}: get_norm for resolution {n} gives {norm.tolist()}, DCT normalisation is {exn.tolist()}', {'task': ['sizes', N0, [list(x) for x in seq]], 'call': i})
+                return
+    rep.sample({'case': f'sizes/N{N0}', 'sequence_of_requested_sizes': [x[0] for x in seq], 'one_helper_instance': True}, limit=2)
 
 
 def kron_case(rep):
